@@ -175,3 +175,79 @@ func VerifC13_MalformedResponse() {
 		rt.Assert(len(cw) == 0, "bad-labels/child-written-although-response-rejected")
 	}
 }
+
+// verifCondEntry returns one entry of a status.conditions list: a value of a
+// wrong JSON type, or an object whose `type` / `status` members have symbolic
+// wrong types.
+func verifCondEntry(tag string) interface{} {
+	switch rt.Choice(tag, 4) {
+	case 0:
+		v, _ := verifWrongType(tag + ".entry")
+		return v // nil (null entry) or a scalar / list / object without `type`
+	case 1:
+		return map[string]interface{}{"type": "Updated", "status": rt.String(tag + ".status")}
+	case 2:
+		return map[string]interface{}{"type": rt.String(tag + ".type"), "status": "True"}
+	default:
+		m := map[string]interface{}{}
+		t, has := verifWrongType(tag + ".type")
+		verifSetOrDelete(m, "type", t, has)
+		s, has := verifWrongType(tag + ".status")
+		verifSetOrDelete(m, "status", s, has)
+		return m
+	}
+}
+
+// VerifC13_MalformedStatus: a decodable response with a well-formed child and a
+// status whose `conditions` member is malformed in every way JSON allows, under
+// a rolling and a non-rolling strategy (the rolling path edits the hook's
+// conditions in place: SetCondition). Nothing may panic; the child is
+// reconciled; the status written keeps the phase the hook sent.
+func VerifC13_MalformedStatus() {
+	w := env.NewWorld()
+	parent := env.Thing("ns", "p", "puid")
+	w.Srv.Put("things", parent)
+	method := "InPlace"
+	if rt.Bool("rolling") {
+		method = "RollingInPlace"
+		if rt.Bool("recreate") {
+			method = "RollingRecreate"
+		}
+	}
+	phase := rt.String("phase")
+	status := map[string]interface{}{"phase": phase}
+	switch rt.Choice("conditions", 4) {
+	case 0:
+		v, has := verifWrongType("conditions")
+		verifSetOrDelete(status, "conditions", v, has)
+	case 1:
+		status["conditions"] = []interface{}{}
+	case 2:
+		status["conditions"] = []interface{}{verifCondEntry("c0")}
+	default:
+		status["conditions"] = []interface{}{verifCondEntry("c0"), verifCondEntry("c1")}
+	}
+	hook := &verifHook{enabled: true, fn: func(req *v1.CompositeHookRequest) (*v1.CompositeHookResponse, error) {
+		return &v1.CompositeHookResponse{Children: []*unstructured.Unstructured{env.ConfigMap("ns", "a", "", "v")}, Status: status}, nil
+	}}
+	pc := verifNewPC(w, verifPCConfig{
+		ParentRes: env.ThingRes, GenerateSelector: true,
+		Children: []verifChildRule{{Res: env.ConfigMapRes, Strategy: verifStrategyOf(method)}},
+		Sync:     hook,
+	})
+	pc.SnapshotFromStore()
+	err := pc.syncParentObject(pc.W.Srv.All("things")[0])
+	rt.Observe("err", err != nil)
+	if err != nil {
+		rt.Cover("status/rejected")
+		return
+	}
+	rt.Cover("status/accepted")
+	rt.Assert(w.Srv.Peek("configmaps", "ns", "a") != nil, "status/child-not-created-although-sync-succeeded")
+	p := w.Srv.Peek("things", "ns", "p")
+	st, _ := p.Object["status"].(map[string]interface{})
+	rt.Assert(st != nil, "status/not-written-although-sync-succeeded")
+	if st != nil {
+		rt.Assert(st["phase"] == phase, "status/phase-lost")
+	}
+}
